@@ -1134,6 +1134,9 @@ where
             }
         };
 
+        #[cfg(feature = "verif")]
+        anda_db_utils::verif::point("bt.insert.posting");
+
         if is_new {
             // Add the field value to the B-tree for range queries.
             //
@@ -1148,6 +1151,9 @@ where
                 btree.insert(field_value.clone());
             }
         }
+
+        #[cfg(feature = "verif")]
+        anda_db_utils::verif::point("bt.insert.btree");
 
         // If the index was modified, update bucket state
         let mut new_bucket = 0;
@@ -1220,6 +1226,9 @@ where
             }
         }
 
+        #[cfg(feature = "verif")]
+        anda_db_utils::verif::point("bt.insert.bucket");
+
         if new_bucket > 0 {
             // Create a new bucket and migrate this data to it
             match self.buckets.entry(new_bucket) {
@@ -1291,6 +1300,9 @@ where
             }
         }
 
+        #[cfg(feature = "verif")]
+        anda_db_utils::verif::point("bt.remove.posting");
+
         if removed {
             let mut entry_removed = false;
             if posting_empty {
@@ -1306,6 +1318,9 @@ where
                     self.remove_btree_key_if_posting_absent(&field_value);
                 }
             }
+
+            #[cfg(feature = "verif")]
+            anda_db_utils::verif::point("bt.remove.entry");
 
             let size_decrease = if entry_removed {
                 full_size_decrease
@@ -1423,6 +1438,9 @@ where
             }
         }
 
+        #[cfg(feature = "verif")]
+        anda_db_utils::verif::point("bt.insert_array.precheck");
+
         // Ensure the current bucket exists (see insert()).
         let bucket_id = self.max_bucket_id.load(Ordering::Relaxed);
         if !self.buckets.contains_key(&bucket_id) {
@@ -1503,6 +1521,9 @@ where
             }
         }
 
+        #[cfg(feature = "verif")]
+        anda_db_utils::verif::point("bt.insert_array.postings");
+
         // Add all new values to the B-tree in a single operation.
         // Same phantom-key guard as in `insert`: skip keys whose posting was
         // concurrently removed between posting creation and this point.
@@ -1514,6 +1535,9 @@ where
                 }
             }
         }
+
+        #[cfg(feature = "verif")]
+        anda_db_utils::verif::point("bt.insert_array.btree");
 
         // Phase 2: handle bucket overflow and updates
         // Process each field value individually to avoid migrating existing values unnecessarily.
@@ -1564,6 +1588,9 @@ where
                 }
             }
         }
+
+        #[cfg(feature = "verif")]
+        anda_db_utils::verif::point("bt.insert_array.buckets");
 
         // Phase 3: Create new buckets if needed
         if !field_values_to_migrate.is_empty() {
@@ -1722,6 +1749,9 @@ where
             }
         }
 
+        #[cfg(feature = "verif")]
+        anda_db_utils::verif::point("bt.remove_array.postings");
+
         // Remove empty postings from the index.
         // Use atomic check-and-remove: a concurrent `insert` might have re-populated
         // a posting between the first pass and here, so only remove if still empty.
@@ -1758,6 +1788,9 @@ where
                 self.remove_btree_key_if_posting_absent(value);
             }
         }
+
+        #[cfg(feature = "verif")]
+        anda_db_utils::verif::point("bt.remove_array.entries");
 
         // Update all modified buckets
         for (bucket_id, (size_decrease, field_values)) in bucket_updates {
@@ -2487,6 +2520,9 @@ where
             })
             .collect();
 
+        #[cfg(feature = "verif")]
+        anda_db_utils::verif::point("bt.compact.snapshot");
+
         if fv_sizes.is_empty() {
             self.buckets.clear();
             self.buckets.insert(0, (0, true, UniqueVec::default(), 1));
@@ -2516,6 +2552,8 @@ where
 
         // Step 4: Rebuild buckets.
         self.buckets.clear();
+        #[cfg(feature = "verif")]
+        anda_db_utils::verif::point("bt.compact.cleared");
         let new_count = bins.len();
         let max_id = new_count.saturating_sub(1) as u32;
 
@@ -2539,6 +2577,24 @@ where
         });
 
         (old_count, new_count)
+    }
+
+    /// (verification hook) The bucket layout: the owning bucket of every key,
+    /// and per bucket its dirty flag and the keys it lists.
+    #[cfg(feature = "verif")]
+    #[allow(clippy::type_complexity)]
+    pub fn verif_layout(&self) -> (Vec<(FV, u32)>, Vec<(u32, bool, Vec<FV>)>) {
+        let owners = self
+            .postings
+            .iter()
+            .map(|entry| (entry.key().clone(), entry.value().0))
+            .collect();
+        let buckets = self
+            .buckets
+            .iter()
+            .map(|entry| (*entry.key(), entry.value().1, entry.value().2.to_vec()))
+            .collect();
+        (owners, buckets)
     }
 
     /// Updates the index metadata
